@@ -552,19 +552,32 @@ def pyBind (s : Sig) (prev : List CArg) (cur : CArg) : Option Nat :=
       | some j => some (nfix + nvp + j)
       | none => if s.vk.isSome then some (nfix + nvp + s.ko.length) else none
 
+/-- the keyword `n` of a call with `npos` positional arguments finds a place: a positional-or-keyword
+parameter not filled positionally, a keyword-only parameter, or `**vk` -/
+def pyKwOk (s : Sig) (npos : Nat) (n : Str) : Bool :=
+  match optIdx (s.pk.map P.name) n with
+  | some j => !decide (s.po.length + j < npos)
+  | none => (s.ko.map P.name).contains n || s.vk.isSome
+
 /-- CPython accepts the call `f(e1, …, e_npos, k1=…, …)` (keywords `kws` distinct): no
 `TypeError` from argument binding.  Positional arguments must fit (`*vp` takes the overflow), every
 keyword must name a not yet filled positional-or-keyword or a keyword-only parameter or go to
 `**vk`, and every parameter without a default must have been given. -/
 def pyAccepts (s : Sig) (npos : Nat) (kws : List Str) : Bool :=
   (decide (npos ≤ s.po.length + s.pk.length) || s.vp.isSome) &&
-  kws.all (fun n =>
-    match optIdx (s.pk.map P.name) n with
-    | some j => !decide (s.po.length + j < npos)
-    | none => (s.ko.map P.name).contains n || s.vk.isSome) &&
+  kws.all (pyKwOk s npos) &&
   (s.po.drop npos).all (fun p => p.dflt.isSome) &&
   (s.pk.drop (npos - s.po.length)).all (fun p => p.dflt.isSome || kws.contains p.name) &&
   s.ko.all (fun p => p.dflt.isSome || kws.contains p.name)
+
+/-- the signature a pure `**kwargs` pass-through wrapper `def f(**kwargs): return g(**kwargs)` of
+`g` (parameter list `s`) should show: `g`'s keyword-capable parameters, keyword-only -/
+def kwForwarded (s : Sig) : Sig := ⟨[], [], none, s.pk ++ s.ko, s.vk⟩
+
+/-- the call `f(e1, …, e_npos, k1=…, …)` of that wrapper runs without `TypeError`: `f` itself takes
+no positional argument, then `g(k1=…, …)` must be accepted -/
+def pyRunsKwWrapper (s : Sig) (npos : Nat) (kws : List Str) : Bool :=
+  decide (npos = 0) && pyAccepts s 0 kws
 
 /-! ## Python: the signature of a bound method -/
 
